@@ -226,20 +226,22 @@ class TimeIt:
 
   def __enter__(self):
     parent = thread_local.thread_local_get('__timing_context__', None)
+    self._parent = parent
     if parent is not None:
       parent.add(self)
-      self._parent = parent
     thread_local.thread_local_set('__timing_context__', self)
     self.start()
     return self
 
   def __exit__(self, exc_type, exc_value, traceback):
     del exc_type, traceback
-    self.end(exc_value)
-    if self._parent is None:
-      thread_local.thread_local_del('__timing_context__')
-    else:
-      thread_local.thread_local_set('__timing_context__', self._parent)
+    try:
+      self.end(exc_value)
+    finally:
+      if self._parent is None:
+        thread_local.thread_local_del('__timing_context__')
+      else:
+        thread_local.thread_local_set('__timing_context__', self._parent)
 
 
 def timeit(name: str = '') -> TimeIt:
